@@ -102,19 +102,23 @@ fn short_file(s: &Server, declared: usize, actual: usize) -> Option<String> {
     if !correct.starts_with(&out) { return Some(format!("{desc} expected=prefix-of-the-one-serialisation actual=statuses {:?}, {} bytes", statuses(&out), out.len())); }
     None
 }
-/// exchange integrity on one connection: responses in order, connection closed after 4xx/5xx
+/// exchange integrity on one connection: responses in order, connection closed after 5xx
 fn pipeline(s: &Server, codes: &[u16]) -> Option<String> {
     let desc = format!("pipeline codes={codes:?}");
     let mut msg = Vec::new();
     for c in codes { msg.extend_from_slice(format!("GET /code/{c} HTTP/1.1\r\n\r\n").as_bytes()); }
     s.log.lock().unwrap().clear();
     let out = exchange(s, &msg, None);
+    // a 5xx response closes the connection; after a 4xx the server may close (it does today) or carry on --
+    // no property demands either, so both are accepted
     let mut want = Vec::new();
     for c in codes { want.push(*c); if *c >= 400 { break; } }
+    let mut want_keep = Vec::new();
+    for c in codes { want_keep.push(*c); if *c >= 500 { break; } }
     let got = statuses(&out);
-    if got != want { return Some(format!("{desc} expected={want:?} actual={got:?}")); }
+    if got != want && got != want_keep { return Some(format!("{desc} expected={want:?} actual={got:?}")); }
     let runs = s.log.lock().unwrap().len();
-    if runs != want.len() { return Some(format!("{desc} expected={}-handler-runs actual={runs}", want.len())); }
+    if runs != got.len() { return Some(format!("{desc} expected={}-handler-runs actual={runs}", got.len())); }
     None
 }
 fn main() {
